@@ -355,6 +355,17 @@ def _ns_body(payloads, maxsize):
                             continue
                 if got != written:
                     return fail('netstring_roundtrip', 'payloads=%r wire=%r chunks=%r timeout_at=%d: got %r' % (written, wire, chunks, timeout_at, got))
+        # the size limit can be given per call: a reader built with a small limit reads a longer payload with read_ns(maxsize=...)
+        w2 = FakeSock([])
+        NetstringSocket(w2, maxsize=64).write_ns(b'0123456789')
+        for p in written[:1]:
+            NetstringSocket(w2, maxsize=64).write_ns(p)
+        for chunks in ([w2.sent], [w2.sent[:3], w2.sent[3:]], [w2.sent[i:i + 1] for i in range(len(w2.sent))]):
+            su.time = FakeTime(-1)
+            rs = NetstringSocket(FakeSock(chunks, timeout_at=-1), maxsize=5)
+            got = [rs.read_ns(maxsize=64)] + [rs.read_ns(maxsize=64) for p in written[:1]]
+            if got != [b'0123456789'] + written[:1]:
+                return fail('netstring_per_call_maxsize', 'wire=%r chunks=%r: got %r' % (w2.sent, chunks, got))
     finally:
         su.time = saved
     return done(True, kind='written', payloads=payloads)
